@@ -1,5 +1,8 @@
 """C20 — Backwards compatible: what passes under the standard doctest module passes here."""
+import contextlib
+import io
 import itertools
+import os
 import random
 import re
 
@@ -15,11 +18,8 @@ MANIFEST = {
              "strings: a standard _ellipsis_match is an xdoctest _ellipsis_match (the pieces correspond one to one, xdoctest's being the "
              "standard ones minus absorbed whitespace); every standard directive switches the corresponding xdoctest flag on; identical "
              "texts pass under both; '# doctest:' is parsed like '# xdoctest:'; the traceback want is recognised with the same message and "
-             "the exception check agrees (given the output implication for the compared texts). PARTIAL: 'standard match => xdoctest match' "
-             "is proved for all got/want and all four flag settings (none, ELLIPSIS, NORMALIZE_WHITESPACE, both) for wants without "
-             "<BLANKLINE>, under explicit guards (the ELLIPSIS step via C05.ellipsisMatch_collapse; the NORMALIZE_REPR quote step is shown to "
-             "leave a matching pair alone); the full guarded statement is kept as a Prop and reduced to its <BLANKLINE> part. The UNGUARDED statement is false of the unchanged code: each guard has a "
-             "kernel-checked witness, replayed on the real code, and a known-finding entry (K-C20-a..h). <BLANKLINE> wants, grouping/compile modes and REPL semantics are observed: checker-level differential run "
+             "the exception check agrees (given the output implication for the compared texts). FULL at checker level: 'standard match => xdoctest match' (stdlib_match_implies_xdoc_match) is proved for ALL got/want, all four flag settings (none, ELLIPSIS, NORMALIZE_WHITESPACE, both) and wants with or without <BLANKLINE>, under the explicit guards (the ELLIPSIS step via C05.ellipsisMatch_collapse; the NORMALIZE_REPR quote step leaves a matching pair alone; the two marker substitutions agree up to whitespace on marker lines, and a marker that is not a marker line forces the marker into got). The UNGUARDED statement is false of the unchanged code: each guard has a "
+             "kernel-checked witness, replayed on the real code, and a known-finding entry (K-C20-a..h). Grouping/compile modes, REPL semantics, state across docstrings and text files are observed: checker-level differential run "
              "against CPython's doctest and xdoctest, and generated standard-syntax doctests kept only if the standard module passes them."),
     'note': ("Trusted: Lean kernel, allowed axioms only; the hand-written model of CPython's doctest.py checker (tied to the running "
              "interpreter's doctest module by this run); the xdoctest checker model (C05/C06, regex texts pinned); CPython's compile/exec and "
@@ -35,7 +35,10 @@ RULE = ("checker level: ops std_vs_xdoc / std_vs_xdoc_nl vs doctest.OutputChecke
         "_EXCEPTION_RE.match, _strip_exception_details, the exception check. end-to-end: random standard-syntax doctests of 1..6 examples "
         "from 73 example kinds (incl. option directives on continuation lines with silent neighbours, SyntaxError-family and multi-line tracebacks) x layouts (indentation, prose/blank separators, terminating bare '...', header), wants from REPL-semantics "
         "execution, kept only if doctest.DocTestRunner(optionflags=0) passes; must be collected as one doctest, pass and produce the same "
-        "TRACE under xdoctest. non-trivial = standard match with got != want (checker) / a doctest the standard module passes (end-to-end); "
+        "TRACE under xdoctest. state: one reused RuntimeState whose flags change in place / through parsed directives between checker calls; 2..4 docstrings run in one "
+        "process in random orders with repetitions and same-object re-runs, each occurrence vs the docstring alone in a fresh process and vs the "
+        "standard module; scale: docstrings of 20..80 examples, 9..40 continuation lines / markers / wildcards / lines / message lines; text files: "
+        "doctest.testfile vs pytest --xdoctest-glob. non-trivial = standard match with got != want (checker) / a doctest the standard module passes (end-to-end); "
         "distinct = distinct (got, want) / distinct text")
 ASSUMPTIONS = [
     'REPL semantics (compile(..., "single"), sys.displayhook) is CPython behaviour, not modelled; the standard doctest module is the oracle',
@@ -232,7 +235,33 @@ def mutate(rng, s):
     return s[:i] + rng.choice(MUT_TOKS) + s[i + 1:]
 
 
+REPEAT_UNITS = ['<BLANKLINE>\n', '\n<BLANKLINE>', '<BLANKLINE>  \n', '...', ' ... ', 'x...', 'line\n', '  \n', 'a  \n', 'a\t\n', '\x0c\n', 'w  ', '\n\n']
+
+
 def gen_pair(rng):
+    if rng.random() < 0.1:
+        # MANY occurrences of one construct (a substitution or split that silently stops after N matches only shows beyond N)
+        unit = rng.choice(REPEAT_UNITS)
+        n = rng.randint(9, 40)
+        want = ''.join(unit + (rng.choice(['', 'a', 'b', '1']) if rng.random() < 0.5 else '') for _ in range(n))
+        got = want
+        r = rng.random()
+        if r < 0.6:
+            # a got the standard checker accepts for this want: markers as empty lines, wildcards filled in, blanks re-flowed
+            k = [0]
+
+            def fill(m):
+                k[0] += 1
+                return 'v%d' % k[0]
+            got = re.sub(r'(?m)^<BLANKLINE>[ \t]*$', '', got)
+            got = re.sub(r'\.\.\.', fill, got)
+            if rng.random() < 0.5:
+                got = re.sub(r'[ \t]+', lambda m: rng.choice([' ', '  ', '\t']), got)
+        elif r < 0.8:
+            got = mutate(rng, got)
+        if rng.random() < 0.3:
+            want = mutate(rng, want)
+        return got, want
     n = rng.randint(0, 8)
     base = ''.join(rng.choice(TOKENS + ['ab', 'x = 1', "{'k': u'v'}", '\n', '\n\n', 'True\n', 'line one\n', '  indented']) for _ in range(n))
     got = base
@@ -408,6 +437,7 @@ def unit_suites(ctx, corr):
 
 # ------------------------------------------------------------------ end-to-end
 KINDS_PLAIN = list(G.PLAIN)
+LONG_DOC_PROB = [0.004]
 
 
 def gen_doc(rng):
@@ -420,6 +450,13 @@ def gen_doc(rng):
         kinds = pre + [rng.choice(G.CONT_DIRECTIVE)] + post + [rng.choice(['expr', 'print', 'strexpr', 'assign'])]
         layout = {'indent': rng.choice(['', '    ']), 'bare_end': sorted(i for i in range(len(kinds)) if rng.random() < 0.15),
                   'sep': {}, 'header': rng.random() < 0.3}
+        return kinds, layout
+    if rng.random() < LONG_DOC_PROB[0]:
+        # SCALE: a docstring with many examples (counts no hand-written test reaches)
+        n = rng.randint(20, 80)
+        kinds = [rng.choice(KINDS_PLAIN) for _ in range(n)]
+        layout = {'indent': rng.choice(['', '    ']), 'bare_end': sorted(i for i in range(n) if rng.random() < 0.2),
+                  'sep': {str(i): rng.choice(['blank', 'prose']) for i in range(n) if rng.random() < 0.25}, 'header': rng.random() < 0.3}
         return kinds, layout
     n = rng.randint(1, 6)
     kinds = [rng.choice(KINDS_PLAIN) for _ in range(n)]
@@ -517,6 +554,310 @@ def _shard_e2e(args):
     return count, tags, bad, keys, samples
 
 
+
+# ------------------------------------------------------------------ state / repetition
+def _shard_seq(args):
+    """the same standard-syntax docstrings collected and run repeatedly in ONE process, interleaved with other
+    docstrings (directives, expected exceptions after output, flag switches, known-finding triggers): every
+    occurrence must behave as the docstring alone in a fresh process, and - when the standard module passes it and
+    it carries no known trigger - pass with the standard TRACE"""
+    seed, shard, count = args
+    rng = random.Random('c20s:%d:%d' % (seed, shard))
+    tags, bad = {}, []
+
+    def tag(t):
+        tags[t] = tags.get(t, 0) + 1
+    steps = 0
+    for _ in range(count):
+        m = rng.randint(2, 4)
+        docs = []
+        for _i in range(m):
+            kinds, layout = gen_doc(rng)
+            if len(kinds) > 8:
+                kinds = kinds[:8]
+                layout = {'indent': layout.get('indent', '')}
+            if rng.random() < 0.5:
+                kinds = kinds + [rng.choice(['printraise', 'raise_detail', 'skip', 'ellipsis', 'minus_ell', 'minus_normws', 'raise_then_stdout',
+                                             'printraise_detail', 'normws', 'both', 'marker', 'three_in_one'])]
+            docs.append((kinds, layout))
+        texts = [build(k, l)[0] for k, l in docs]
+        order = [rng.randrange(m) for _ in range(rng.randint(m + 1, 2 * m + 2))]
+        order.append(order[0])
+        rerun = [1 if rng.random() < 0.3 else 0 for _ in order]
+        # reference: each docstring alone, in its own fresh process; and the standard module
+        alone = []
+        for i, text in enumerate(texts):
+            st, r = G.in_child(G.xdoc_run, text)
+            alone.append({'collected': r['collected'], 'passed': r['passed'], 'T': r['T']} if st == 'ok' else {'error': r})
+        std = [G.std_run(text) for text in texts]
+        st, seq = G.in_child(G.xdoc_run_seq, texts, order, rerun)
+        if st != 'ok':
+            bad.append({'texts': texts, 'order': order, 'rerun': rerun, 'observed': 'sequence run died: %r' % (seq,), 'step': None})
+            tag('seq:UNCLASSIFIED')
+            continue
+        for j, i, which, o in seq:
+            steps += 1
+            exp = alone[i]
+            o2 = {'collected': o['collected'], 'passed': o['passed'], 'T': o['T']}
+            if o2 != exp:
+                tag('seq:UNCLASSIFIED')
+                if len(bad) < 3:
+                    bad.append({'texts': texts, 'order': order[:j + 1], 'rerun': rerun[:j + 1], 'step': j, 'which': which,
+                                'observed': o2, 'alone': exp})
+                break
+            f, a, Ts = std[i][0], std[i][1], std[i][2]
+            if not f and a and not any(k in G.TRIGGER for k in docs[i][0]):
+                if not (o['passed'] and o['T'] == Ts and o['collected'] == 1):
+                    tag('seq:UNCLASSIFIED')
+                    if len(bad) < 3:
+                        bad.append({'texts': texts, 'order': order[:j + 1], 'rerun': rerun[:j + 1], 'step': j, 'which': which,
+                                    'observed': o2, 'standard': {'failed': f, 'attempted': a, 'T': Ts}})
+                    break
+                tag('seq:occurrence==alone==standard' + (' (same object re-run)' if which == 'again' else ''))
+            else:
+                tag('seq:occurrence==alone (standard rejects it or known trigger)')
+    return steps, tags, bad
+
+
+def seq_fails(texts, order, rerun):
+    """oracle of the sequence suite on one input; description of the first deviating step or None"""
+    alone = []
+    for text in texts:
+        st, r = G.in_child(G.xdoc_run, text)
+        alone.append({'collected': r['collected'], 'passed': r['passed'], 'T': r['T']} if st == 'ok' else {'error': r})
+    st, seq = G.in_child(G.xdoc_run_seq, texts, order, rerun)
+    if st != 'ok':
+        return {'observed': 'sequence run died: %r' % (seq,)}
+    for j, i, which, o in seq:
+        o2 = {'collected': o['collected'], 'passed': o['passed'], 'T': o['T']}
+        if o2 != alone[i]:
+            return {'step': j, 'docstring': i, 'which': which, 'observed': o2, 'alone': alone[i]}
+    return None
+
+
+def shrink_seq(texts, order, rerun):
+    cur = (list(order), list(rerun))
+    changed = True
+    while changed and len(cur[0]) > 1:
+        changed = False
+        for k in range(len(cur[0]) - 1):
+            o2 = cur[0][:k] + cur[0][k + 1:]
+            r2 = cur[1][:k] + cur[1][k + 1:]
+            if seq_fails(texts, o2, r2):
+                cur = (o2, r2)
+                changed = True
+                break
+    return cur
+
+
+XFLAG_NAMES = ['ELLIPSIS', 'NORMALIZE_WHITESPACE', 'IGNORE_WHITESPACE', 'NORMALIZE_REPR', 'DONT_ACCEPT_BLANKLINE']
+DIRECTIVE_STEPS = ['+ELLIPSIS', '-ELLIPSIS', '+NORMALIZE_WHITESPACE', '-NORMALIZE_WHITESPACE', '+ELLIPSIS, +NORMALIZE_WHITESPACE',
+                   '-ELLIPSIS, -NORMALIZE_WHITESPACE', '+IGNORE_EXCEPTION_DETAIL', '+SKIP', '-ELLIPSIS, +ELLIPSIS', '+NORMALIZE_WHITESPACE, -ELLIPSIS']
+
+
+def stateful_checker(ctx, corr):
+    """checker calls on ONE reused RuntimeState (and one OutputChecker) whose flags change between the calls, both by
+    in-place assignment and through parsed '# doctest:' directives (RuntimeState.update, as the run loop does for every
+    part): each verdict must be the model's verdict for the flags in force NOW, the standard verdicts those of the std
+    model, and the implication std => xdoctest must hold whenever the flags in force are the ones a standard doctest
+    runs under"""
+    from xdoctest import checker, directive
+    oc, _, fl = _setup()
+    rng = ctx.sub_rng('stateful-checker')
+    pool = [gen_pair(rng) for _ in range(60)] + [('a bb b', 'a...b'), ('a  b', 'a b'), ('x\n\ny', 'x\n<BLANKLINE>\ny'), ('ab', 'a b'),
+                                                 ('a\n \nb\n', 'a\n<BLANKLINE>\nb\n'), ('x 12 y', 'x ... y'), ('p\n\n\nq', 'p\n<BLANKLINE>\n<BLANKLINE>\nq')]
+    rs = directive.RuntimeState()
+    n_steps = 2500 if ctx.quick else 40000
+    seq = []
+    for _ in range(n_steps):
+        g, w = rng.choice(pool)
+        how = rng.random()
+        if how < 0.4:
+            n = rng.randrange(32)
+            for b, k in zip((4, 3, 2, 1, 0), XFLAG_NAMES):
+                rs[k] = bool(n >> b & 1)
+            desc = 'rs[...] = ' + format(n, '05b')
+        elif how < 0.9:
+            src = rng.choice(DIRECTIVE_STEPS)
+            rs.update(list(directive.Directive.extract('>>> x = 1  # doctest: ' + src)))
+            desc = 'update(# doctest: %s)' % src
+        else:
+            rs.update([])
+            desc = 'update([])'
+        bits = ''.join('1' if rs[k] else '0' for k in XFLAG_NAMES)
+        try:
+            r = '1' if checker.check_output(g, w, rs) else '0'
+        except Exception as ex:
+            r = 'E:' + type(ex).__name__
+        seq.append((desc, bits, g, w, r))
+    model = driver.run_lines(['check_output\t%s\t%s\t%s' % (bits, enc(g), enc(w)) for _, bits, g, w, _ in seq])
+    std_model = driver.run_lines(['std_vs_xdoc\t%s\t%s' % (enc(g), enc(w)) for _, _, g, w, _ in seq])
+    default_bits = ''.join('1' if directive.RuntimeState()[k] else '0' for k in XFLAG_NAMES)
+    for (desc, bits, g, w, r), m, sm in zip(seq, model, std_model):
+        corr.count('stateful:check_output')
+        if m != r:
+            corr.disagree('stateful:check_output', {'got': g, 'want': w, 'flags_in_force': bits, 'last_change': desc,
+                                                   'note': 'ONE RuntimeState reused, flags changed between calls'}, m, r)
+        rstd = real_std(g, w)
+        if rstd != sm.split(' ')[0]:
+            corr.disagree('stateful:std_check', {'got': g, 'want': w}, sm.split(' ')[0], rstd)
+        if bits == default_bits:
+            for i in range(4):
+                if rstd[i] == '1' and r != '1':
+                    kid = classify_checker(g, w, i, 0)
+                    if kid:
+                        corr.tag('stateful:known:' + kid)
+                    else:
+                        corr.expect_fail('checker-stateful', {'got': g, 'want': w, 'i': i, 'nl': 0, 'std_flags': STD_FLAG_SRC[i],
+                                                              'last_change': desc}, 'accepts (standard checker accepts)', r,
+                                         'verdict on a REUSED RuntimeState whose flags are back to the defaults')
+                elif rstd[i] == '1':
+                    corr.tag('stateful:std-match=>xdoc-match')
+    corr.tag('stateful-steps', len(seq))
+
+
+# ------------------------------------------------------------------ text files (doctest.testfile semantics)
+HELPER = '''
+import json, os
+_TAG = [None]
+T = []
+
+
+def start(tag):
+    _TAG[0] = tag
+
+
+def t(k):
+    T.append(k)
+    with open(os.path.join(os.path.dirname(os.path.abspath(__file__)), 'trace-%s.jsonl' % os.environ.get('C20_MODE', 'x')), 'a') as f:
+        f.write(json.dumps([_TAG[0], k]) + '\\n')
+    return k
+
+
+def pv(k):
+    print('p%d' % k)
+    return 'v%d' % k
+
+
+def boom(k):
+    raise KeyError('b%d' % k)
+
+
+def deco(f):
+    return f
+
+
+def mkexc(dots, nested=False):
+    cls = type('Err%d' % dots, (Exception,), {})
+    cls.__module__ = '.'.join('pkg%d' % i for i in range(dots)) if dots else 'builtins'
+    if nested:
+        cls.__qualname__ = 'Outer.Err%d' % dots
+    return cls
+'''
+
+TEXTFILE_CONFTEST = '''
+import json, os, pytest
+
+
+@pytest.hookimpl(hookwrapper=True)
+def pytest_runtest_makereport(item, call):
+    outcome = yield
+    rep = outcome.get_result()
+    if rep.when == 'call' or (rep.when == 'setup' and rep.outcome != 'passed'):
+        with open(os.path.join(os.path.dirname(str(item.fspath)), 'results.jsonl'), 'a') as f:
+            f.write(json.dumps({'file': os.path.basename(str(item.fspath)), 'outcome': rep.outcome}) + '\\n')
+'''
+
+
+def _std_testfile(path, d):
+    import doctest
+    import sys as _sys
+    os.environ['C20_MODE'] = 'std'
+    _sys.path.insert(0, d)
+    with contextlib.redirect_stdout(io.StringIO()):
+        r = doctest.testfile(path, module_relative=False, verbose=False, report=False, optionflags=0)
+    return r.failed, r.attempted
+
+
+def textfile_docs(rng, n):
+    out = []
+    for i in range(n):
+        kinds, layout = gen_doc(rng)
+        kinds = [k for k in kinds if k not in G.TRIGGER][:10] or ['expr']
+        specs = [G.example(k, j + 1) for j, k in enumerate(kinds)]
+        lay = {'indent': layout.get('indent', ''), 'bare_end': set(layout.get('bare_end', ())),
+               'sep': {int(k): v for k, v in layout.get('sep', {}).items() if int(k) < len(kinds)}, 'header': False}
+        body, _ = G.render(specs, lay)
+        ind = lay['indent']
+        text = 'A text file with examples (doctest.testfile semantics).\n\n%s>>> from c20helper import *; start("d%d")\n%s' % (ind, i, body)
+        out.append(('d%d.txt' % i, text, kinds))
+    return out
+
+
+def textfile_run(docs):
+    """docs: [(basename, text, kinds)]. Returns {basename: {'std': (failed, attempted), 'std_T': [...], 'xdoc': outcome|None, 'xdoc_T': [...]}}"""
+    import json
+    import shutil
+    import subprocess
+    import sys as _sys
+    import tempfile
+    d = tempfile.mkdtemp(prefix='xdocverif-c20txt-')
+    try:
+        with open(os.path.join(d, 'c20helper.py'), 'w') as f:
+            f.write(HELPER)
+        with open(os.path.join(d, 'conftest.py'), 'w') as f:
+            f.write(TEXTFILE_CONFTEST)
+        res = {}
+        for base, text, kinds in docs:
+            with open(os.path.join(d, base), 'w') as f:
+                f.write(text)
+            st, r = G.in_child(_std_testfile, os.path.join(d, base), d)
+            res[base] = {'std': tuple(r) if st == 'ok' else ('error', r), 'std_T': [], 'xdoc': None, 'xdoc_T': []}
+        env = dict(os.environ, C20_MODE='xdoc')
+        env['PYTHONPATH'] = d + os.pathsep + env.get('PYTHONPATH', '')
+        p = subprocess.run([_sys.executable, '-m', 'pytest', '-p', 'no:cacheprovider', '--xdoctest-glob=*.txt', '--xdoctest-style=freeform',
+                            '-q', '--rootdir', d, d], cwd=d, env=env, stdout=subprocess.PIPE, stderr=subprocess.STDOUT, timeout=600)
+        tail = p.stdout.decode('utf8', 'replace')[-1500:]
+        for mode, key in (('std', 'std_T'), ('xdoc', 'xdoc_T')):
+            fp = os.path.join(d, 'trace-%s.jsonl' % mode)
+            if os.path.exists(fp):
+                for line in open(fp):
+                    tagv, k = json.loads(line)
+                    base = '%s.txt' % tagv
+                    if base in res:
+                        res[base][key].append(k)
+        rp = os.path.join(d, 'results.jsonl')
+        if os.path.exists(rp):
+            for line in open(rp):
+                rec = json.loads(line)
+                if rec['file'] in res:
+                    prev = res[rec['file']]['xdoc']
+                    res[rec['file']]['xdoc'] = rec['outcome'] if prev in (None, 'passed') else prev
+        return res, tail
+    finally:
+        shutil.rmtree(d, ignore_errors=True)
+
+
+def textfile_suite(ctx, corr, n=None):
+    rng = ctx.sub_rng('textfiles')
+    docs = textfile_docs(rng, n or (14 if ctx.quick else 120))
+    res, tail = textfile_run(docs)
+    for base, text, kinds in docs:
+        r = res[base]
+        corr.count('textfile')
+        if r['std'][0] != 0 or not r['std'][1]:
+            corr.tag('textfile:std-reject (not kept)')
+            continue
+        corr.nontriv(('txt', text))
+        if r['xdoc'] == 'passed' and r['xdoc_T'] == r['std_T']:
+            corr.tag('textfile:testfile-pass=>pytest-textfile-pass,same-TRACE')
+        else:
+            corr.expect_fail('textfile', {'textfile': text, 'kinds': kinds},
+                             {'standard': 'doctest.testfile passes', 'T': r['std_T']}, {'pytest outcome': r['xdoc'], 'T': r['xdoc_T'], 'tail': tail[-400:]},
+                             'text file run by pytest --xdoctest-glob=*.txt')
+    corr.sample({'suite': 'textfile', 'text': docs[0][1]}, limit=16)
+
+
 def correspondence(ctx, corr):
     import xdoctest  # noqa
     _setup()
@@ -572,6 +913,25 @@ def correspondence(ctx, corr):
                              'passes under the standard doctest module')
         for s in samples:
             corr.sample(s, limit=14)
+    # ---- state / repetition, text files
+    stateful_checker(ctx, corr)
+    per = 9 if ctx.quick else 150
+    res = par.pmap(_shard_seq, [(ctx.seed, s, per) for s in range(16)])
+    for n, tags, bad in res:
+        corr.count('e2e:sequence-steps', n)
+        for k, v in tags.items():
+            corr.tag(k, v)
+        for h in bad:
+            if h.get('step') is not None:
+                o2, r2 = shrink_seq(h['texts'], h['order'], h['rerun'])
+                used = sorted(set(o2))
+                h = dict(h, texts=[h['texts'][i] for i in used], order=[used.index(i) for i in o2], rerun=r2)
+            corr.expect_fail('e2e-seq', {'texts': h['texts'], 'order': h['order'], 'rerun': h['rerun']},
+                             'every occurrence behaves like the docstring alone in a fresh process (and like the standard module)',
+                             {k: h.get(k) for k in ('step', 'which', 'observed', 'alone', 'standard')},
+                             'docstrings collected and run repeatedly in one process')
+    corr.sample({'suite': 'e2e-seq', 'note': '2..4 docstrings, run in one process in a random order with repetitions and same-object re-runs'}, limit=16)
+    textfile_suite(ctx, corr)
 
 
 # ------------------------------------------------------------------ verdict plumbing
@@ -595,6 +955,7 @@ E2E_WITNESS = {
     'K-C20-f': '>>> print("x\\x1b[0mdone", t(1))  # doctest: +ELLIPSIS\nx...[0mdone 1\n',
     'K-C20-g': '>>> print("u\'x\'", t(1))  # doctest: +ELLIPSIS\nu... 1\n',
     'K-C20-h': '>>> print("a\\rb", t(1))  # doctest: +NORMALIZE_WHITESPACE\na b 1\n',
+    'K-C20-j': '>>> q1 = """\n... # doctest: +SKIP\n... """ + str(t(1))\n>>> t(2)\n2\n',
     'K-C20-i': '>>> t(1)\n1\n>>> t(2) +\nTraceback (most recent call last):\n    ...\nSyntaxError: invalid syntax\n',
 }
 # (got, want seen by the standard checker, want seen by xdoctest, flag index) : the kernel-checked witnesses of Proofs/C20.lean
@@ -693,6 +1054,22 @@ def search(ctx, corr, broken):
 
 def replay(ctx, failing):
     inp = failing['input']
+    if 'texts' in inp and 'order' in inp:
+        f = seq_fails(inp['texts'], inp['order'], inp.get('rerun') or [0] * len(inp['order']))
+        for i, tx in enumerate(inp['texts']):
+            print('docstring %d:\n%s' % (i, tx))
+        print('order=%r rerun=%r -> %s' % (inp['order'], inp.get('rerun'), f or 'every occurrence behaves like the docstring alone'))
+        if f:
+            return True
+        # or: passes the standard module but not xdoctest (within the sequence)
+        return False
+    if 'textfile' in inp:
+        num = re.search(r'start\("d(\d+)"\)', inp['textfile']).group(1)
+        res, tail = textfile_run([('d%s.txt' % num, inp['textfile'], inp.get('kinds', []))])
+        r = list(res.values())[0]
+        print('text file:\n' + inp['textfile'])
+        print('doctest.testfile: failed=%r attempted=%r T=%r ; pytest text file: %r T=%r' % (r['std'][0], r['std'][1], r['std_T'], r['xdoc'], r['xdoc_T']))
+        return r['std'][0] == 0 and bool(r['std'][1]) and not (r['xdoc'] == 'passed' and r['xdoc_T'] == r['std_T'])
     if 'text' in inp:
         o, d = e2e_outcome(inp['text'])
         print('text:\n' + inp['text'])
